@@ -78,6 +78,21 @@ func (p *Parser) Parse(source string) (Node, error) {
 	// Apply whitespace control to handle whitespace trimming directives
 	if err == nil {
 		tokenizer.ApplyWhitespaceControl()
+
+		// The dash has done its work: from here on a trimming delimiter is an
+		// ordinary delimiter, so every tag accepts it at every boundary
+		for i := range p.tokens {
+			switch p.tokens[i].Type {
+			case TOKEN_VAR_START_TRIM:
+				p.tokens[i].Type = TOKEN_VAR_START
+			case TOKEN_VAR_END_TRIM:
+				p.tokens[i].Type = TOKEN_VAR_END
+			case TOKEN_BLOCK_START_TRIM:
+				p.tokens[i].Type = TOKEN_BLOCK_START
+			case TOKEN_BLOCK_END_TRIM:
+				p.tokens[i].Type = TOKEN_BLOCK_END
+			}
+		}
 	}
 
 	// p.tokens aliases the tokenizer's buffer: keep the tokenizer out of the
